@@ -324,3 +324,9 @@ def run(ctx):
             inner = [x for x in A.walk(ret) if x.k == "call" and x.a[0].startswith(BT + "::" + m)]
             wrong = [x for x in A.walk(ret) if x.k == "call" and x.a[0].startswith(BT + "::") and not x.a[0].startswith(BT + "::" + m)]
             ctx.ob("R-C08.6", fn, "wrapper-returns-inner-result", bool(inner) and not wrong, "returns the result of BaseTransaction::%s" % m if inner and not wrong else "wrapper returns %s" % A.tstr(ret)[:100])
+
+
+    # ---- R-C08.7 "commit applies exactly the final write per key all at once": nothing may raise the visible counter past a
+    # commit that is still applying its items (shared with C06: R-C06.6 — same defect, same seven call sites)
+    from . import C06
+    C06.version_change_rules(ctx, "R-C08.7")
